@@ -94,7 +94,7 @@ def run(ctx):
     # elapsed is now - T
     for name, defs in sl.var_defs().items():
         if name == "last_transfer_interval":
-            for pj, d in defs:
+            for pj, d, _bb in defs:
                 cs = [c for c in walk(d) if c[0] == "call" and c[1].endswith("SystemTime::duration_since")]
                 key = "should_transfer_now elapsed definition"
                 if cs and show(polarity.strip(cs[0][2][0])) == "now" and "last_time" in show(cs[0][2][1]):
